@@ -43,7 +43,7 @@ CHECKS["C19"] = {
              " R19.7: an endpoint's getData returns None or a value produced by this very receive on every path; a stored field that is not written on the path (the previous message) is never returned."
              " R19.8: a field of the hub that spin both tests and writes (a latch) has its initial value again on every exit of spin on which it was written."
              ' R19.9: sendData of every endpoint class and of the hub transmits whatever the message is - no path that skips the transmission is selected by a test of the message value (identity tests against None excepted), so falsy payloads such as the empty string of a zero-length datagram are not dropped.'
-             ' R19.10: openAll / closeAll call openCom / closeCom on every endpoint in every round of the loop (not short-circuited by, or conditional on, what earlier endpoints returned). R19.11: Comms.getCom returns None or the endpoint-table entry stored under its argument (an endpoint is known exactly under its table key, which is what spin and getData go by). R19.9 counts only calls that hand the message on as transmissions (len / isinstance / str of it are inspections). R19.12: CommsObject and its subclasses define no __eq__ / __ne__ / __hash__ - the rule tables\' membership tests and removals rely on identity equality of endpoints.'),
+             ' R19.13: in getData of every endpoint class and of the hub a path that reports nothing-received is selected only by None comparisons of what the transport handed back, never by its truth value / length / content (an empty message is a message). R19.10: openAll / closeAll call openCom / closeCom on every endpoint in every round of the loop (not short-circuited by, or conditional on, what earlier endpoints returned). R19.11: Comms.getCom returns None or the endpoint-table entry stored under its argument (an endpoint is known exactly under its table key, which is what spin and getData go by). R19.9 counts only calls that hand the message on as transmissions (len / isinstance / str of it are inspections). R19.12: CommsObject and its subclasses define no __eq__ / __ne__ / __hash__ - the rule tables\' membership tests and removals rely on identity equality of endpoints.'),
     "note": ("Trusted: endpoints honour the CommsObject interface; real socket behaviour (shutdown on an unconnected UDP "
              "socket etc.) is not modelled."),
 }
@@ -152,7 +152,8 @@ CHECKS["C17"] = {
              " R17.3: direction of the (screw table, joint vector) contract - the seven kernels taking both are re-analysed with cols(table) = n + slack, slack >= 0: every index must stay in bounds when the table has more columns than the vector has entries (the Python layers pass the whole table with a caller-length vector)."
              ' R17.1 also reports an index whose bound against a contract extent cannot be signed when the smallest admissible size (1 for an extent, 0 for slack) is a witness for which the index lies outside (e.g. a loop over the 6 rows of the screw table indexing the joint vector).'
              ' The length of a float-step np.arange is an extent of its own (NumPy computes it in floating point and documents that it can be one off): a loop counted by it may index only arrays of that same extent.'
-             ' R17.4: an explicit @jit signature declares no integer scalar type for a parameter the kernel uses as a value (arithmetic, stored, returned, passed on) - Numba would truncate a real argument silently in the compiled kernel only.'),
+             ' R17.4: an explicit @jit signature declares no integer scalar type for a parameter the kernel uses as a value (arithmetic, stored, returned, passed on) - Numba would truncate a real argument silently in the compiled kernel only.'
+             ' R17.5: a kernel indexed through a parameter that has no shape contract (an integer offset passed by the caller) is re-analysed at every call in the package with the passed integer (or the default) substituted: every index must stay inside the contracted extent.'),
     "note": "Trusted: shape contracts in sa/engine/mrspec.py (docstrings); Numba code generation; callers not analysed pass arrays that satisfy the contracts.",
 }
 
@@ -220,6 +221,7 @@ CHECKS["C08"] = {
              "wrappers call the kernels with arguments in role order, 1-D tip loads and matching return arity. Symmetry / "
              "definiteness as numbers, FD o ID = id, energy conservation and agreement of Arm.inverseDynamics/inverseDynamicsC "
              "with the recursion are numerical identities and are NOT decided. Also (R08.4): dependence conformance inside Arm.inverseDynamics - the base step carries (0,0,0,-g) through an operator that reads the same model inputs (joint value, screw, link frames) as the general step's propagation operator."
+             ' R08.7: memo coherence - a field a dynamics method of Arm both stores and reads (a value kept between calls) must be discarded by every method of Arm / Robot that writes a field the kept value was computed from (def-use closure through the locals of the method and through self-calls); no kept fields = no obligations.'
              ' R08.2 also holds jacobianLink to its definition hstack(Ad(inv(FKLink(theta, i))) @ JacobianSpace(prefix i + 1), zeros), computed from the arguments of the call (rule shared with C06).'),
     "note": "Trusted: modern_robotics 1.1.1 recursion as the physics reference; rewrite set N1..N53.",
 }
